@@ -9,6 +9,7 @@
 package dvsim
 
 import (
+	"bytes"
 	"os"
 	"fmt"
 	"runtime"
@@ -219,7 +220,7 @@ func (Engine) Generate(prop string, r *kit.Rand, tier string) *kit.Scenario[Conf
 	if prop == "C19" {
 		wPfx, wReface, wMgmt = 12, 2, 2
 	}
-	wHold := 3
+	wHold, wSendErr := 3, 2
 	if prop == "C04" {
 		wHold = 0
 	}
@@ -353,7 +354,11 @@ func (Engine) Generate(prop string, r *kit.Rand, tier string) *kit.Scenario[Conf
 			sc.Ops = append(sc.Ops, Op{Op: "advance", Ms: kit.Pick(r, []int{100, 300, 1000})}, Op{Op: "deliver", K: 0}, Op{Op: "advance", Ms: 500})
 			continue
 		}
-		switch r.Weighted([]int{wTick, wDeliver, wDrop, wDup, wAdv, wLink, wCrash, wPfx, wReface, wDead, wMgmt, wCorrupt, wHold}) {
+		switch r.Weighted([]int{wTick, wDeliver, wDrop, wDup, wAdv, wLink, wCrash, wPfx, wReface, wDead, wMgmt, wCorrupt, wHold, wSendErr}) {
+		case 13:
+			// a router's socket refuses the next few packets (they are lost; what was to be sent must be sent again
+			// by whatever retries the protocol has)
+			sc.Ops = append(sc.Ops, Op{Op: "senderr", R: r.Intn(c.N), K: r.Range(1, 4)})
 		case 12:
 			x, pt := r.Intn(c.N), kit.Pick(r, []string{"rib-update", "rib-update", "fib-update"})
 			k := fmt.Sprintf("%d|%s", x, pt)
@@ -558,6 +563,10 @@ type simFace struct {
 	onPkt   func(r enc.ParseReader) error
 	mu      sync.Mutex // Send is called from several goroutines of a router (a real face serialises sends too)
 	out     [][]byte
+	// failNext: the next sends of routing packets fail with a transient error, as a socket does when its buffer
+	// is full (management commands have their own failure fault and retry budget)
+	failNext int
+	onFail   func()
 }
 
 // drain takes what has been sent so far, in a canonical order (several goroutines
@@ -608,6 +617,16 @@ func (f *simFace) Send(pkt enc.Wire) error {
 	}
 	f.mu.Lock()
 	defer f.mu.Unlock()
+	if f.failNext > 0 {
+		raw := pkt.Join()
+		if !bytes.Contains(raw, []byte("\x08\x09localhost\x08\x03nfd")) {
+			f.failNext--
+			if f.onFail != nil {
+				f.onFail()
+			}
+			return fmt.Errorf("simulated: no buffer space available")
+		}
+	}
 	f.out = append(f.out, append([]byte(nil), pkt.Join()...))
 	return nil
 }
@@ -1383,6 +1402,13 @@ func (w *world) run() {
 			a, b := o.A%c.N, o.B%c.N
 			w.faceOf[[2]int{a, b}] += 50
 			w.ctx.Fault("neighbour-face-changed")
+		case "senderr":
+			if n := w.nodes[o.R%c.N]; n.face != nil {
+				n.face.mu.Lock()
+				n.face.failNext = max(1, min(o.K, 4))
+				n.face.onFail = func() { w.ctx.Fault("send-error") }
+				n.face.mu.Unlock()
+			}
 		case "mgmtfail":
 			w.nodes[o.R%c.N].mgmtFail = min(o.K, 2)
 		case "announce", "withdraw":
